@@ -217,6 +217,14 @@ def rule_len(fx, out):
             meas = [e['args'][0] for e in f.events if e['k'] == 'call' and re.search(r'measure_argument<.*>::apply$', e['name']) and e['args']]
             ml = [e for e in f.events if e['k'] == 'call' and e['name'].endswith('match_lengths')]
             ok = sorted(meas) == sorted(ps) and len(ml) == len(ps) - 1
+            # ... as a left fold: every match_lengths combines the running length with the next argument's measurement,
+            # so that a scalar in the middle does not separate two arrays
+            vd = [e for e in f.events if e['k'] == 'vardecl' and re.search(r'measure_argument<.*>::apply\(%s\)$' % re.escape(ps[0]), e['init'])]
+            run_ = vd[0]['name'] if vd else None
+            rets = [e['text'] for e in f.events if e['k'] == 'return']
+            if len(ps) > 1:
+                nxt = [re.sub(r'^measure_argument<.*>::apply\((\w+)\)$', r'\1', e['args'][1]) if len(e['args']) > 1 else '?' for e in ml]
+                ok = ok and run_ is not None and all(e['args'] and e['args'][0] == run_ for e in ml) and sorted(nxt) == sorted(ps[1:]) and rets == ['%s.first' % run_]
             out.append(('R20.len', 'measure_arguments/%d' % len(ps), HOLDS if ok else VIOLATED, 'every argument measured, %d match_lengths' % len(ml) if ok else 'measures %s of %s with %d match_lengths' % (meas, ps, len(ml)), f['loc']))
         if nm == 'match_lengths' and f.key not in seenm:
             seenm.add(f.key); n += 1
